@@ -1,4 +1,5 @@
 import DfProps.TieBase
+import DfModel.Steps
 
 /-!
 # Tie (C17): the row loops of filter_rows **as written in /repo now**
@@ -75,6 +76,33 @@ theorem Tie_filter_process (c : PV → Except Err PV) (rows : List PV) (cond : P
     cases filterSpec c rows with
     | error e => simp [Except.map]
     | ok l => simp [Except.map]
+
+/-- `filterSpec` over embedded rows is the model's `filterM` (the one `C17_filter_eq_filter` / `C17_filter_subseq` are about),
+for any embedding of rows and any condition that agrees with the model's -/
+theorem filterSpec_model {α} (emb : α → PV) (c : PV → Except Err PV) (cM : α → Except Err Bool)
+    (hc : ∀ r, c (emb r) = (cM r).map PV.bool) (filterM : (α → Except Err Bool) → List α → Except Err (List α))
+    (hnil : filterM cM [] = .ok [])
+    (hcons : ∀ r rs, filterM cM (r :: rs) = (cM r).bind (fun b => (filterM cM rs).bind (fun rs' => pure (if b then r :: rs' else rs'))))
+    (rows : List α) :
+    filterSpec c (rows.map emb) = (filterM cM rows).map (List.map emb) := by
+  induction rows with
+  | nil => simp [filterSpec, hnil, Except.map]
+  | cons r rs ih =>
+    simp only [List.map_cons, filterSpec, hcons, hc, ih, bind, Except.bind]
+    cases cM r with
+    | error e => simp [Except.map, Except.bind]
+    | ok b =>
+      cases filterM cM rs with
+      | error e => simp [Except.map, Except.bind]
+      | ok rs' => cases b <;> simp [Except.map, Except.bind, pure, Except.pure]
+
+/-- instance: the `Steps` model's `filterM` -/
+theorem Tie_filter_model (emb : Row → PV) (c : PV → Except Err PV) (cM : Row → Except Err Bool)
+    (hc : ∀ r, c (emb r) = (cM r).map PV.bool) (rows : List Row) (cond : PV) :
+    callFn (extCond c) Live.Py.filter_process [.list (rows.map emb), cond]
+      = (Df.filterM cM rows).map (fun rs => PV.list (rs.map emb)) := by
+  rw [Tie_filter_process, filterSpec_model emb c cM hc Df.filterM (by rfl) (by intro r rs; rfl) rows]
+  cases Df.filterM cM rows <;> simp [Except.map]
 
 /-! ## `deduplicate.deduper` -/
 
